@@ -127,7 +127,28 @@ def long_set(tier):
          if F.has_op(f, F.FUTURE) and site({'formula': F.to_json(f), 'pastify': True}) is None]
     U = [u for u in F.unary_ops(F.I_QUICK, ops=BF_U) if not (u[0] in ('eventually', 'always') and u[1] is None)]
     one = [F.ap1(u, F.PX) for u in U if u[0] in F.FUTURE] + [('until', (1, 2), F.PX, F.PY), ('unless', (0, 2), F.PX, F.PY)]
-    return (d[::8] if tier == 'quick' else d) + one
+    return (d[::8] if tier == 'quick' else d) + one + shifted_wide(tier)
+
+
+def shifted_wide(tier):
+    """wide past windows that pastify() has to delay because a sibling looks into the future (once[a,b] becomes once[a+d,b+d]),
+    and wide past windows with begin > 0 on their own (the second sentence of the property: no future operator at all)"""
+    px, py = F.PX, F.PY
+    out = []
+    fut = [('eventually', (0, 2), px), ('next', px), ('always', (1, 3), px)]
+    for I in ((0, 7), (0, 8), (1, 9), (0, 15), (3, 19)):
+        for g in fut:
+            out += [('implies', g, ('once', I, py)), ('and', ('historically', I, py), g), ('or', g, ('since', I, py, px))]
+        out += [('once', I, px), ('historically', I, px), ('since', I, px, py)]
+    return out[::2] if tier == 'quick' else out
+
+
+def long_unit_cases(tier):
+    """wide windows spelled with units"""
+    px, py = F.PX, F.PY
+    base = [('once', (1, 9), px), ('historically', (2, 10), px), ('implies', ('eventually', (0, 2), px), ('once', (0, 8), py)),
+            ('since', (1, 8), px, py), ('always', (2, 12), px)]
+    return [(f, st) for f in base for st in (UNIT_STYLES[:2] if tier == 'quick' else UNIT_STYLES)]
 
 
 def deep_set(tier):
@@ -181,6 +202,10 @@ def run_shard(shard, tier, res):
         st, m = c02.explore_formula(res, mod, f, p, model=m)
         res.sample({'spec': m.text, 'horizon': m.delay, 'states': st.states, 'transitions': st.transitions,
                     'fixpoint': st.fixpoint, 'max_depth': st.maxdepth}, 1)
+    for fj, style in shard.get('long_units', []):
+        f = F.from_json(fj)
+        c02.run_long(res, mod, f, tier, pastify=True, delay=int(refsem.horizon(f)), text='out = ' + F.pr(f, unit_bound(style)))
+        res.flags['unit_spelled'] += 1
     if 'modular' in shard:
         f, subs, text = modular_cases(tier)[shard['modular']]
         m = c02.DtOnlineModel(f, p['values'], text=text, pastify=True, delay=int(refsem.horizon(f)), subspecs=tuple(subs), offline=False)
